@@ -13,7 +13,7 @@ CONSTANT Emit
 (* ---------------- cells ---------------- *)
 (* pm = how the price is unavailable: the TWA record is flagged inactive, or there is no record at all *)
 PriceModes == {"na", "inactive", "missing"}
-OwnCells  == {[m |-> "own", msg |-> r.id, signer |-> s] : r \in OwnerRows, s \in Signers}
+OwnCells  == {[m |-> "own", msg |-> r.id, holder |-> h, signer |-> s] : r \in OwnerRows, h \in Holders, s \in Signers}
 (* des = the contract the statement designates for the variant (tells the harness which cell is the non-vacuity reference) *)
 PrivCells == {[m |-> "priv", v |-> x.v, chain |-> c, sender |-> s, des |-> Designated(x.cls)] : x \in Variants, c \in Chains, s \in Senders}
 KillCells == {[m |-> "kill", sender |-> s] : s \in KillSenders}
@@ -28,19 +28,22 @@ HookCells == {[m |-> "hook", hook |-> h, app |-> HookApp(h), breaker |-> b, esm 
                  h \in Hooks, b \in BOOLEAN, e \in EsmStates, o \in SUBSET I, pm \in PriceModes}
 HookCellsOK == {c \in HookCells : (c.pm = "na" <=> c.off = {}) /\ (c.off # {} => HookNeedsPrice(c.hook))}
 
+AucCells  == {[m |-> "auc", hook |-> h, app |-> AucApp(h), off |-> o, pm |-> pm] : h \in AuctionSteps, o \in SUBSET IO, pm \in PriceModes}
+AucCellsOK == {c \in AucCells : c.pm = "na" <=> c.off = {}}
+
 CtlOf(c) == Ctl(c.breaker, c.esm, c.off)
 
 (* ---------------- model state: abstract app state + outcome of the last attempt ---------------- *)
 VARIABLES cell, st, res
 vars == <<cell, st, res>>
-St0 == [ver |-> 0, pos |-> Pos0]
+St0 == [ver |-> 0, pos |-> Pos0("owner")]
 Init == cell = [m |-> "init"] /\ st = St0 /\ res = [ok |-> TRUE]
 
 Out(c) == IF Emit THEN PrintT(<<"T", ToJson(c)>>) ELSE TRUE
 
 DoOwn(c) == \E env \in BOOLEAN :
-            LET o == OwnerStep(st.pos, Row(c.msg), c.signer, env) IN
-            /\ (OwnerPredicted(Row(c.msg), c.signer) => env)        \* env only matters for the unpredicted cells
+            LET o == OwnerStep(Pos0(c.holder), Row(c.msg), c.signer, env) IN
+            /\ (OwnerPredicted(Row(c.msg), c.holder, c.signer) => env)        \* env only matters for the unpredicted cells
             /\ cell' = c /\ res' = [ok |-> o.ok] /\ st' = [st EXCEPT !.pos = o.pos]
 DoPriv(c) == LET ok == ImplPrivOk(c.v, c.chain, c.sender) IN
             /\ cell' = c /\ res' = [ok |-> ok] /\ st' = IF ok THEN [st EXCEPT !.ver = st.ver + 1] ELSE st
@@ -51,12 +54,16 @@ DoCtl(c) == LET o == Step(st, Row(c.h), c.prod, CtlOf(c)) IN
 DoHook(c) == LET idle == ImplHookIdle(c.hook, Ctl(c.breaker, c.esm, c.off)) IN
             /\ cell' = c /\ res' = [ok |-> ~idle] /\ st' = IF idle THEN st ELSE [st EXCEPT !.ver = st.ver + 1]
 
+DoAuc(c) == LET frozen == ImplAucFrozen(c.hook, c.off) IN
+            /\ cell' = c /\ res' = [ok |-> ~frozen] /\ st' = IF frozen THEN st ELSE [st EXCEPT !.ver = st.ver + 1]
+
 Next == /\ cell.m = "init"
         /\ \/ \E c \in OwnCells : DoOwn(c) /\ Out(c)
            \/ \E c \in PrivCells : DoPriv(c) /\ Out(c)
            \/ \E c \in KillCells : DoKill(c) /\ Out(c)
            \/ \E c \in CtlCellsOK : DoCtl(c) /\ Out(c)
            \/ \E c \in HookCellsOK : DoHook(c) /\ Out(c)
+           \/ \E c \in AucCellsOK : DoAuc(c) /\ Out(c)
 Spec == Init /\ [][Next]_vars
 
 (* ---------------- meta-properties of the tables ---------------- *)
@@ -67,16 +74,17 @@ Tables ==
   /\ \A x, y \in Variants : x.v = y.v => x = y
   /\ \A r \in Rows : ConstrainedC12(r) \/ ConstrainedC14(r) \/ r \in Unconstrained      \* every row classified
   /\ \A r \in Rows : ConstrainedC14(r) => \E c \in CtlCellsOK : c.h = r.id /\ CtlOf(c) = CtlOff   \* non-vacuity reference exists
-  /\ \A r \in OwnerRows : \E c \in OwnCells : c.msg = r.id /\ c.signer = "owner"
+  /\ \A r \in OwnerRows : \E c \in OwnCells : c.msg = r.id /\ c.signer = c.holder
 
 (* ---------------- design-level results (the model as coded against the property) ---------------- *)
-RejectedChangesNothingM == ~res.ok => st = St0
+RejectedChangesNothingM == ~res.ok => st.ver = 0 /\ st.pos.ver = 0
 DesignC12 ==
-  /\ cell.m = "own"  => OwnerOnly(Row(cell.msg), cell.signer, res.ok) /\ (cell.signer # "owner" => st.pos = Pos0)
+  /\ cell.m = "own"  => OwnerOnly(Row(cell.msg), cell.holder, cell.signer, res.ok) /\ (cell.signer # cell.holder => st.pos = Pos0(cell.holder))
   /\ cell.m = "priv" => PrivilegedOnlyDesignated(cell.chain, cell.sender, res.ok) /\ PrivilegedRole(cell.v, cell.chain, cell.sender, res.ok)
   /\ cell.m = "kill" => KillOnlyAdmin(cell.sender, res.ok)
 DesignC14 ==
   /\ cell.m = "ctl"  => (MustReject(Row(cell.h), cell.prod, CtlOf(cell)) => ~res.ok)
+  /\ cell.m = "auc"  => (AucPriceReq(cell.hook, cell.off) => ~res.ok)
   /\ cell.m = "hook" => (HookMustIdle(cell.hook, Ctl(cell.breaker, cell.esm, cell.off)) => ~res.ok)
 (* the named deviation: outside the two known networks the dispatcher has no sender guard at all *)
 FailOpenElsewhere == cell.m = "priv" => (PrivilegedElsewhere(cell.chain, cell.sender, res.ok) <=> (cell.chain \in MainTest \/ cell.sender = "admin"))
